@@ -99,7 +99,7 @@ def lib_call(fn, *a, **k):
 # deterministic count of executed lines (DESIGN 2.4)
 
 WATCHDOG_S = float(os.environ.get("VERIF_WATCHDOG_S", "30"))
-LINE_BUDGET = int(float(os.environ.get("VERIF_LINE_BUDGET", "4e7")))
+LINE_BUDGET = int(float(os.environ.get("VERIF_LINE_BUDGET", "5e7")))  # scale/tick/calendar calls: legitimate cases stay below 1e6 lines
 
 
 DEFAULT_RECURSION_LIMIT = 1000
@@ -138,12 +138,22 @@ def count_lines(thunk, budget):
     return r, n[0]
 
 
-def guarded(thunk, ctx=None, seconds=None):
+class StopSearch(BaseException):
+    """the shard gives up generating: every further case would cost minutes (confirmed hangs)"""
+
+
+HANGS = dict(confirmed=0, assumed=0)
+
+
+def guarded(thunk, ctx=None, seconds=None, budget=None):
     """Run thunk() (which must rebuild everything it needs, so that it can be re-run).
-    Normal cases take milliseconds.  If the watchdog fires the case is re-run under a
-    deterministic line budget: over budget => Violation('nontermination'); otherwise it
-    was merely slow (counted)."""
+    Normal cases take milliseconds.  If the watchdog fires the case is re-run under a deterministic budget of executed
+    lines: over budget => Violation('nontermination'); otherwise it was merely slow (counted).  Callers whose legitimate
+    cost grows with the input (the layout engine is roughly cubic in the number of mutually conflicting labels) pass a
+    watchdog and a budget that grow with it.  After one confirmed overrun in this process, later watchdog expiries are
+    attributed to the same root cause without re-tracing (their verdict adds nothing), and after three the shard stops."""
     seconds = seconds or WATCHDOG_S
+    budget = budget or LINE_BUDGET
     # Emulate a caller with a shallow stack: the library gets the interpreter's default 1000 frames counted from here,
     # whatever the depth of the harness (Hypothesis raises the process-wide limit while it runs a test).
     inner = thunk
@@ -156,7 +166,7 @@ def guarded(thunk, ctx=None, seconds=None):
         finally:
             sys.setrecursionlimit(max(old_limit, DEFAULT_RECURSION_LIMIT))
 
-    if not hasattr(signal, "setitimer"):
+    if not hasattr(signal, "setitimer") or sys.gettrace() is not None:
         return thunk()
     old = signal.signal(signal.SIGALRM, _alarm)
     signal.setitimer(signal.ITIMER_REAL, seconds)
@@ -167,14 +177,27 @@ def guarded(thunk, ctx=None, seconds=None):
     finally:
         signal.setitimer(signal.ITIMER_REAL, 0)
         signal.signal(signal.SIGALRM, old)
+    if HANGS["confirmed"]:
+        HANGS["assumed"] += 1
+        if HANGS["assumed"] > 3:
+            raise StopSearch()
+        raise Violation("nontermination", "watchdog expired after %.0f s; a budget overrun was already confirmed in this run" % seconds)
     try:
-        r, n = count_lines(thunk, LINE_BUDGET)
+        r, n = count_lines(thunk, budget)
     except BudgetExceeded:
-        raise Violation("nontermination", "did not finish within %d executed lines" % LINE_BUDGET)
+        HANGS["confirmed"] += 1
+        raise Violation("nontermination", "did not finish within %d executed lines" % budget)
     if ctx is not None:
         ctx.event("slow-case")
         ctx.slow += 1
     return r
+
+
+def engine_limits(n):
+    """(watchdog seconds, line budget) for a layout of n labels: measured worst legitimate case (200 mutually
+    overlapping labels squeezed into 72 layers) is 27 s / 4.1e8 lines, i.e. about 50 n^3 lines"""
+    n = max(1, min(n, 250))
+    return WATCHDOG_S + n ** 3 / 5e4, int(2e8 + 500 * n ** 3)
 
 
 # --------------------------------------------------------------------------
@@ -320,7 +343,10 @@ def run_generate(prop, tier, shard_seed, examples, ctx):
 
         M = prop.machine(tier, ctx)
         steps = prop.budget(tier).get("steps", 20)
-        run_state_machine_as_test(hypothesis.seed(shard_seed)(M), settings=hyp_settings(examples, steps=steps))
+        try:
+            run_state_machine_as_test(hypothesis.seed(shard_seed)(M), settings=hyp_settings(examples, steps=steps))
+        except StopSearch:
+            ctx.event("search-stopped-after-confirmed-hangs")
         return
 
     @hypothesis.seed(shard_seed)
@@ -329,7 +355,10 @@ def run_generate(prop, tier, shard_seed, examples, ctx):
     def t(spec):
         evaluate(prop, spec, ctx)
 
-    t()
+    try:
+        t()
+    except StopSearch:
+        ctx.event("search-stopped-after-confirmed-hangs")
 
 
 def run_shrink(prop, tier, shard_seed, examples, bucket, budget_s):
